@@ -345,7 +345,7 @@ def corr_values(ctx, mult=1):
     rng = ctx.rng
     cs = list(special_cases(rng, ctx.thorough))
     for model, nq, nt in (("ZHS", 14, 300), ("AVZ", 14, 300), ("ARZ", 4, 80)):
-        for i in range(ctx.n(nq, nt) * mult):
+        for i in range(ctx.n(nq, nt) * (mult if model != "ARZ" else min(mult, 2))):
             c = rand_case(rng, model, Nmax=(64 if model == "ARZ" else 128) if not ctx.thorough else (96 if model == "ARZ" else 256),
                           inside=(i % 3 != 2))
             if model == "ARZ" and not ctx.thorough and abs(abs(c["psi"]) - theta_c(c["n"])) > 0.06:
@@ -403,6 +403,8 @@ def judge_values(ctx, res, aux):
 #   PEAK_TOL  1e-9 : two evaluations that are equal over R and differ only by rounding; a sample is a sum of
 #                    <= 1e5 terms whose absolute sum is <= 1e3 x the visible peak (measured ratio <= 15 for
 #                    in-window pulses), each evaluation within ~50 eps of that sum (FFT, phases up to 2 pi N)
+#   ARZ whole-sample shifts additionally allow PEAK_TOL x the peak of the same pulse on a 1024-sample grid (the
+#                    FFT-convolution noise is relative to the whole pulse, also when a short window shows only its tail)
 #   ARZ_TRUNC 1e-3 : ARZ whole-sample shifts when the RAC window (+-10 ns, selected by the truncated n_shift)
 #                    moves by one lattice point between the two calls: |RAC(+-10 ns)| / |RAC(0)| <= 5.6e-5,
 #                    one lattice term out of >= 10 per sample enters A; E is a difference of two A's
@@ -425,6 +427,18 @@ def probe_case(rng, model, resolved=False):
         c["times"], c["dt"] = [(i0 + i) * dt for i in range(N)], dt
         c["t0"] = c["times"][0] + (N // 4) * dt
     return c
+
+
+def arz_global_peak(c):
+    """Peak of the same ARZ pulse on a long grid (1024 samples from 100 samples before t0): the rounding noise of the
+    FFT convolution is relative to the whole pulse, not to the part of it that happens to fall inside a short window."""
+    dt = c["dt"]
+    k0 = round((c["t0"] - c["times"][0]) / dt) - 100
+    ts = [c["times"][0] + (k0 + i) * dt for i in range(1024)]
+    try:
+        return float(np.abs(impl_values(c, times=ts)).max())
+    except Exception:
+        return 0.0
 
 
 def probes(ctx, mult=1):
@@ -499,7 +513,7 @@ def probes(ctx, mult=1):
                     tol = PEAK_TOL * peak
                 else:
                     same_side = ((c["times"][0] - c["t0"] + 10e-9) > 0) == ((c["times"][0] - c["t0"] - m * dt + 10e-9) > 0)
-                    tol = (1e-7 if same_side else ARZ_TRUNC) * peak
+                    tol = (1e-7 if same_side else ARZ_TRUNC) * peak + PEAK_TOL * arz_global_peak(c)
                 if err > tol:
                     fail("whole_sample_shift", c, "moving t0 by %d samples: max |v'[j] - v[j-m]| = %.3g on the overlap (tolerance %.3g, peak %.3g)" % (
                         m, err, tol, peak), m=m)
@@ -520,6 +534,34 @@ def probes(ctx, mult=1):
                 err = float(np.abs(vb - k * va).max())
                 if err > PEAK_TOL * k * pa:
                     fail("em_linear", ce, "value(%g E) - %g value(E): max %.3g (peak %.3g)" % (k, k, err, pa), factor=k)
+
+    # ---- whole-sample shifts with the shower at the edges of the window (fractional offsets on both sides of times[0])
+    for model in MODELS:
+        for it in range(ctx.n(4, 40) * mult):
+            c = probe_case(rng, model)
+            N, dt = len(c["times"]), c["dt"]
+            frac = rng.choice([-0.5, -1.25, -0.125, 0.25, 0.75, N - 0.75, N - 1.5])
+            m = rng.choice([1, -1, 2, -2])
+            c["t0"] = c["times"][0] + frac * dt
+            v, vw = run(c), run(c, t0=c["t0"] + m * dt)
+            if v is None or vw is None:
+                continue
+            peak = max(float(np.abs(v).max()), float(np.abs(vw).max()))
+            if peak == 0:
+                continue
+            count("whole_sample_shift_edge")
+            a, b = (vw[m:], v[:N - m]) if m > 0 else (vw[:N + m], v[-m:])
+            err = float(np.abs(a - b).max())
+            if model == "AVZ":
+                tol = 0.0
+            elif model == "ZHS":
+                tol = PEAK_TOL * 1e2 * peak        # only part of the pulse is visible: the visible peak may be 100x below the full one
+            else:
+                same_side = ((c["times"][0] - c["t0"] + 10e-9) > 0) == ((c["times"][0] - c["t0"] - m * dt + 10e-9) > 0)
+                tol = (1e-7 if same_side else ARZ_TRUNC) * peak + PEAK_TOL * arz_global_peak(c)
+            if err > tol:
+                fail("whole_sample_shift", c, "shower at the window edge (offset %g samples), moving t0 by %d samples: max |v'[j] - v[j-m]| = %.3g on the overlap (tolerance %.3g, peak %.3g)" % (
+                    frac, m, err, tol, peak), m=m)
 
     # ---- finiteness / graceful failure over the whole declared input space (cheap models everywhere, ARZ away from the
     #      unaffordable band 1e-6 < |theta - theta_c| < 5e-3 where dt_divider reaches 1e4..1e6)
@@ -652,7 +694,7 @@ def run(ctx):
     recorded = json.load(open(PIN_FILE)) if os.path.exists(PIN_FILE) else {}
     changed = sorted(k for k in side["pins"] if recorded.get(k) != side["pins"][k])
     ctx.extra["pins"] = {"current": side["pins"], "changed_since_validation": changed}
-    mult = 4 if changed else 1
+    mult = 2 if changed else 1
     ok = ctx.coq_build("C07")
     try:
         parts = [(corr_statics(ctx, mult), judge_statics), (corr_avz_spectrum(ctx, mult), judge_avz_spectrum),
@@ -666,6 +708,12 @@ def run(ctx):
         ctx.oblige("corr:run", False, repr(e)[-1500:])
         ok = False
     probes(ctx, mult=(2 if (not ok or ctx.broken or changed) else 1))
+    if not ok or ctx.broken:
+        # search for a concrete mis-placed pulse (absolute timing is invisible to the relational probes above)
+        try:
+            probe_arz_oracle(ctx, ctx.n(5, 30))
+        except Exception as e:
+            ctx.extra["oracle_error"] = repr(e)[-300:]
 
 
 def replay(ctx, obj):
@@ -710,3 +758,57 @@ def replay(ctx, obj):
     except Exception as e:
         print("model could not be run:", str(e)[-300:])
     return 1
+
+
+# ---------------------------------------------------------------------------- absolute placement oracle (search only)
+def arz_quadrature(c):
+    """Independent evaluation of the ARZ field at the physical sample times: A(t) = <RAC(t - z z_to_t)>_Q by fine
+    trapezoidal quadrature over the shower depth (4e5 points), E_j = -(A(t_{j+1}) - A(t_j)) / dt.  Uses the static
+    profile / RAC functions (validated separately) but none of the index bookkeeping of shower_signal."""
+    import pyrex.askaryan as ask
+    A = ask.ARZAskaryanSignal
+    n, th, dt = c["n"], abs(c["psi"]), c["dt"]
+    tt = np.array(list(c["times"]) + [c["times"][-1] + dt]) - c["t0"]
+    z2t = (1 - n * np.cos(th)) / 299792458.0
+    total = np.zeros(len(tt))
+    for E, prof, rac in ((c["E"] * c["em"], A.em_shower_profile, A.em_shower_RAC), (c["E"] * c["had"], A.had_shower_profile, A.had_shower_RAC)):
+        if E == 0:
+            continue
+        L = A.max_length(E)
+        zs = np.linspace(0, 8 * L, 400001)
+        Q = prof(zs, E)
+        LQ = np.trapezoid(Q, dx=zs[1] - zs[0])
+        if LQ == 0:
+            continue
+        total += np.array([np.trapezoid(Q * rac(t - zs * z2t, E), dx=zs[1] - zs[0]) / LQ for t in tt])
+    total *= np.sin(th) / np.sqrt(1 - 1 / n ** 2) / c["R"]
+    return -np.diff(total) / dt
+
+
+ORACLE_TOL = 3e-2   # of the peak; the code's Riemann sums (dz <= L/100, fine step <= 10 ps) agree with the quadrature to ~1e-3
+
+
+def probe_arz_oracle(ctx, ncases):
+    """Run only when a proof / correspondence obligation is broken: looks for a concrete input on which the ARZ pulse
+    is not where the physical times say it should be (wrong n_shift, slicing, decimation phase ...)."""
+    rng = ctx.rng
+    for _ in range(ncases):
+        c = rand_case(rng, "ARZ", Nmax=64)
+        c["times"] = c["times"][:48] if len(c["times"]) >= 48 else c["times"]
+        N, dt = len(c["times"]), c["dt"]
+        tc = theta_c(c["n"])
+        c["psi"] = tc + rng.choice([-1, 1]) * rng.uniform(0.015, 0.08)
+        c["em"], c["had"] = rng.choice([(1.0, 0.0), (0.0, 1.0), (0.5, 0.5)])
+        c["t0"] = c["times"][0] + (rng.choice([N // 3, (2 * N) // 3, N - 6, 2]) + rng.choice([0.0, 0.25, 0.5])) * dt
+        try:
+            v = impl_values(c)
+            o = arz_quadrature(c)
+        except Exception:
+            continue
+        peak = float(np.abs(o).max())
+        ctx.case(key=("oracle", json.dumps(small(c), sort_keys=True)))
+        if peak > 0 and len(v) == len(o) and float(np.abs(v - o).max()) > ORACLE_TOL * peak:
+            ctx.fail("arz_placement:" + json.dumps(small(c), sort_keys=True)[:300],
+                     "ARZ pulse is not at the physical times: max |implementation - quadrature of the ARZ integral| = %.3g, peak %.3g (tolerance %g of the peak)  [case %s]" % (
+                         float(np.abs(v - o).max()), peak, ORACLE_TOL, json.dumps(small(c))),
+                     {"kind": "arz_placement", "case": c})
